@@ -63,6 +63,7 @@ type verifMesh struct {
 	link  [][]*verifPipe // link[i][j] = i's end of the session i<->j (nil = no link)
 	cost  [][]float64
 	epochs int
+	rev    bool // serve the nodes' requests in reverse order
 }
 
 func verifNewMesh(names []string) *verifMesh {
@@ -122,9 +123,20 @@ func (m *verifMesh) settle() {
 	for round := 0; round < 16; round++ {
 		verifapi.Quiesce()
 		busy := false
-		for i, n := range m.nodes {
+		for k := range m.nodes {
+			i := k
+			if m.rev {
+				i = len(m.nodes) - 1 - k
+			}
+			n := m.nodes[i]
 			if !m.up[i] {
 				continue
+			}
+			if len(*n.adReqs) > 0 {
+				*n.adReqs = nil
+				n.s.sendServiceAds()
+				busy = true
+				verifapi.Quiesce()
 			}
 			if len(*n.floodReqs) > 0 {
 				*n.floodReqs = nil
@@ -151,6 +163,17 @@ func (m *verifMesh) period() {
 	for i, n := range m.nodes {
 		if m.up[i] {
 			n.s.sendRoutingUpdate(0)
+			verifapi.Quiesce()
+		}
+	}
+	m.settle()
+}
+
+// adPeriod is one service-advertisement period: every live node re-advertises its open services.
+func (m *verifMesh) adPeriod() {
+	for i, n := range m.nodes {
+		if m.up[i] {
+			n.s.sendServiceAds()
 			verifapi.Quiesce()
 		}
 	}
@@ -222,6 +245,9 @@ func Verif_C01_mesh_converges() {
 	verifapi.SelectFork(false)
 	verifMeshIDs()
 	m := verifNewMesh([]string{"A", "B", "C"})
+	if verifapi.Tier() == 1 {
+		m.rev = verifapi.Bool()
+	}
 	pairs := [][2]int{{0, 1}, {1, 2}, {0, 2}}
 	present := []bool{verifapi.Bool(), verifapi.Bool(), verifapi.Bool()}
 	for p, pr := range pairs {
